@@ -1424,6 +1424,19 @@ def _check_key(ctx, an: Analysis) -> None:
     id_param = params[0] if params else "comp_id"
     parts["%s[0]" % id_param] = ("%s[0]" % id_param) in subs
     parts["%s[1]" % id_param] = ("%s[1]" % id_param) in subs
+    via_helper = isinstance(label_assign.value, ast.Call) and (call_name(label_assign.value) or "").startswith("self.") \
+        and (call_name(label_assign.value) or "")[5:] in an.methods
+    if via_helper:
+        # the label is produced by a helper method: what it covers is decided below, through the helper's parameters
+        hm0 = an.methods[(call_name(label_assign.value) or "")[5:]]
+        hp0 = [a_.arg for a_ in hm0.args.args[1:]]
+        passed = {hp0[i_]: a_ for i_, a_ in enumerate(label_assign.value.args) if i_ < len(hp0)}
+        passed.update({k_.arg: k_.value for k_ in label_assign.value.keywords if k_.arg in hp0})
+        hsubs = [source.src(s_) for r_ in source.walk_own(hm0) if isinstance(r_, ast.Return) and r_.value is not None for s_ in ast.walk(r_.value) if isinstance(s_, ast.Subscript)]
+        idp = next((pn for pn, a_ in passed.items() if isinstance(a_, ast.Name) and a_.id == id_param), None)
+        parts = {"platform": parts["platform"] or any(isinstance(a_, ast.Name) and a_.id == "platform" for a_ in passed.values()),
+                 "%s[0]" % id_param: idp is not None and ("%s[0]" % idp) in hsubs,
+                 "%s[1]" % id_param: idp is not None and ("%s[1]" % idp) in hsubs}
     for k, ok in parts.items():
         ctx.ob("C08.R4-key", label_assign, ok,
                "cache label contains %s" % k if ok else "cache label omits %s: entries of different %s collide" % (k, k),
@@ -1466,6 +1479,37 @@ def _check_key(ctx, an: Analysis) -> None:
     gnames = set(source.names_in(guard_assign.value))
     # (an earlier version exempted ignore_convert_errors as "only matters for erroneous configurations"; a lenient query followed
     # by a strict one showed that the exemption hid a genuine defect - see DESIGN section 5 - and it was removed)
+    # .. which they are only if the label really is built from them.  A label produced by a helper is followed into the helper: a format
+    # argument that is a parameter of the helper counts only when the CALLER passes it (a parameter left at its default - 'platform=None' and
+    # 'platform or self._platform' - keys every platform's entry by the active platform: two platforms share one cache entry)
+    lab_expr = label_assign.value
+    helper_fmt = None
+    covered = set(source.names_in(lab_expr))
+    if isinstance(lab_expr, ast.Call) and (call_name(lab_expr) or "").startswith("self.") and (call_name(lab_expr) or "")[5:] in an.methods:
+        hm = an.methods[(call_name(lab_expr) or "")[5:]]
+        hparams = [a_.arg for a_ in hm.args.args[1:]]
+        bound = {}
+        for i_, a_ in enumerate(lab_expr.args):
+            if i_ < len(hparams):
+                bound[hparams[i_]] = a_
+        for k_ in lab_expr.keywords:
+            if k_.arg in hparams:
+                bound[k_.arg] = k_.value
+        rets_ = [r_.value for r_ in source.walk_own(hm) if isinstance(r_, ast.Return) and r_.value is not None]
+        covered = set()
+        for r_ in rets_:
+            for nm_ in source.names_in(r_):
+                if nm_ in bound:
+                    covered |= set(source.names_in(bound[nm_]))
+            if isinstance(r_, ast.BinOp) and isinstance(r_.left, ast.Constant) and isinstance(r_.left.value, str):
+                helper_fmt = r_.left.value
+    for need_ in (id_param, "platform"):
+        okc = need_ in covered
+        ctx.ob("C08.R4-key", label_assign, okc,
+               "the cache label is built from %s" % need_ if okc else
+               "the cache label (%s) is not built from the query's %s: entries computed for different values of it share one key - a cacheable query "
+               "with platform=P and one on the active platform return each other's configuration (global and stage variables, blueprints and "
+               "override of the wrong platform)" % (short(lab_expr, 50), need_), construct="cache label covers %s" % need_)
     exempt = {id_param: "part of the key", "platform": "part of the key"}
     for p in params:
         if p in exempt:
@@ -1491,6 +1535,8 @@ def _check_key(ctx, an: Analysis) -> None:
         fmt = label_assign.value.left.value
     elif isinstance(label_assign.value, ast.JoinedStr):
         fmt = "".join(v.value if isinstance(v, ast.Constant) else "%s" for v in label_assign.value.values)
+    if not isinstance(fmt, str):
+        fmt = helper_fmt
     ctx.require(isinstance(fmt, str), "cache label is not a %-format or f-string")
     expected = fmt.replace("%s", ".*", 1)
     pats = 0
